@@ -5,7 +5,7 @@ import ast
 from typing import Dict, List, Optional, Set, Tuple
 
 from ..core import AnalysisError, External, FunctionInfo, call_name, const_value, kwarg, unparse, walk_no_nested
-from ..exprs import cmp_canon, conjuncts, inline, single_defs
+from ..exprs import canon_unparse, cmp_canon, conjuncts, inline, single_defs
 from ..flow import expr_tainted, tainted_names
 from .common import F_BASE, F_DISC, F_QUAL, F_QUAN, calls, cfg_of, construct, loc, short
 from .grouped import _flatten_conditions
@@ -288,7 +288,7 @@ def check_neighbour_merge(ctx, rule: str):
     ok = ok and len(grp) == 1 and [unparse(a) for a in grp[0].args] == ["order[discarded_idx]", "order[kept_idx]"]
     ctx.ob(rule, construct(fm, "order.group(order[discarded], order[its neighbour])"), ok, loc(fm))
     upd = [n for n in walk_no_nested(fm.node) if isinstance(n, ast.AugAssign) and unparse(n.target).replace(" ", "") == "stats[:,kept_idx]" and unparse(n.value).replace(" ", "") == "stats[:,discarded_idx]"]
-    rem = [n for n in walk_no_nested(fm.node) if isinstance(n, ast.Assign) and unparse(n.targets[0]) == "stats" and "!=discarded_idx" in unparse(n.value).replace(" ", "") and "arange(stats.shape[1])" in unparse(n.value)]
+    rem = [n for n in walk_no_nested(fm.node) if isinstance(n, ast.Assign) and unparse(n.targets[0]) == "stats" and any(isinstance(c, ast.Compare) and cmp_canon(c) is not None and cmp_canon(c)[1] == "!=" and "discarded_idx" in (cmp_canon(c)[0], cmp_canon(c)[2]) and "arange(stats.shape[1])" in (cmp_canon(c)[0] + cmp_canon(c)[2]) for c in ast.walk(n.value))]
     ctx.ob(rule, construct(fm, "the neighbour absorbs the counts and exactly the discarded column is removed"), len(upd) == 1 and len(rem) == 1, loc(fm))
 
 
